@@ -32,6 +32,8 @@ type sysImage struct {
 	fullRead     time.Duration
 	shape        SmallShape
 	format, mode string
+	// real systems: a valid parameter document, a valid proof for it and its hash (CLI probes)
+	validParams, validProof, validHash string
 }
 
 func imageOf(ps *prover.ProvingSystem, format string) (*sysImage, error) {
@@ -155,11 +157,13 @@ func checkPrefix(img *sysImage, off int, via string) (sig, msg string) {
 		var stdin []byte
 		switch cmd {
 		case "prove":
+			// valid parameters: only the keys file can be at fault
 			args = []string{"prove", "--mode", img.mode, "--keys-file", path}
-			stdin = []byte("{}")
+			stdin = []byte(img.validParams)
 		case "verify":
-			args = []string{"verify", "--mode", img.mode, "--keys-file", path, "--input-hash", "0x1"}
-			stdin = []byte(`{"ar":["0x1","0x2"],"bs":[["0x1","0x2"],["0x1","0x2"]],"krs":["0x1","0x2"]}`)
+			// a valid proof for the right hash: only the keys file can be at fault
+			args = []string{"verify", "--mode", img.mode, "--keys-file", path, "--input-hash", img.validHash}
+			stdin = []byte(img.validProof)
 		case "export-vk":
 			args = []string{"export-vk", "--keys-file", path, "--output", filepath.Join(dir, "vk")}
 		case "convert-to-raw":
@@ -234,6 +238,17 @@ func runC15(c c15Case) Result {
 		return bad(c.Kind, "harness:image", "%v", err)
 	}
 	img.mode = c.Mode
+	if c.Kind == "real" {
+		if m := fixedValidParamsDims(c.Mode, int(c.Shape.Depth), int(c.Shape.Batch)); m != nil {
+			img.validParams = m.writeDoc(styleHexLower)
+			img.validHash = "0x" + m.InputHash.Text(16)
+			if p, err := proveParams(ps, m); err == nil {
+				if cs, err := proofCoords(p.Proof); err == nil {
+					img.validProof = string(writeProofJSON(cs, true))
+				}
+			}
+		}
+	}
 	off := c.Offset
 	if off >= len(img.data) {
 		off = len(img.data) - 1
@@ -320,6 +335,18 @@ func TestC15_Real(t *testing.T) {
 		t.Fatal(err)
 	}
 	img.mode = d.mode
+	if m := fixedValidParamsDims(d.mode, d.depth, d.batch); m != nil {
+		img.validParams = m.writeDoc(styleHexLower)
+		img.validHash = "0x" + m.InputHash.Text(16)
+		if p, err := proveParams(ps, m); err == nil {
+			if cs, err := proofCoords(p.Proof); err == nil {
+				img.validProof = string(writeProofJSON(cs, true))
+			}
+		}
+	}
+	if img.validProof == "" {
+		t.Fatalf("harness: could not prepare a valid proof for the CLI probes")
+	}
 	shape := SmallShape{Depth: uint32(d.depth), Batch: uint32(d.batch)}
 	report := func(c c15Case, class, sig, msg string) bool {
 		if sig == "" {
